@@ -1697,3 +1697,52 @@ def yield_from_genexp(tree: ast.Module) -> None:
                             ast.copy_location(x, st)
                     body[i] = loop
     ast.fix_missing_locations(tree)
+
+
+def nonneg_clamp(tree: ast.Module) -> None:
+    """n - 1 if n else 0   (also `n and n - 1`) with n a local bound once to bisect*(..) / len(..) - a non-negative integer -
+    is max(0, n - 1); the temporary is substituted when that is its only use."""
+    for fn in [x for x in ast.walk(tree) if isinstance(x, (ast.FunctionDef, ast.AsyncFunctionDef))]:
+        binds: Dict[str, List[ast.Assign]] = {}
+        for n in ast.walk(fn):
+            if isinstance(n, ast.Assign) and len(n.targets) == 1 and isinstance(n.targets[0], ast.Name):
+                binds.setdefault(n.targets[0].id, []).append(n)
+
+        def nonneg(name: str) -> bool:
+            b = binds.get(name, [])
+            if len(b) != 1 or not isinstance(b[0].value, ast.Call):
+                return False
+            f = b[0].value.func
+            nm = f.id if isinstance(f, ast.Name) else (f.attr if isinstance(f, ast.Attribute) else "")
+            return nm in ("bisect", "bisect_left", "bisect_right", "len")
+
+        class T(ast.NodeTransformer):
+            def visit_IfExp(self, n: ast.IfExp):
+                self.generic_visit(n)
+                if isinstance(n.test, ast.Name) and nonneg(n.test.id) and isinstance(n.orelse, ast.Constant) and n.orelse.value == 0 and isinstance(n.body, ast.BinOp) \
+                        and isinstance(n.body.op, ast.Sub) and isinstance(n.body.left, ast.Name) and n.body.left.id == n.test.id and isinstance(n.body.right, ast.Constant) and n.body.right.value == 1:
+                    return ast.copy_location(ast.Call(func=ast.Name(id="max", ctx=ast.Load()), args=[ast.Constant(value=0), n.body], keywords=[]), n)
+                return n
+
+            def visit_FunctionDef(self, n):
+                return n if n is not fn else self.generic_visit(n)
+        T().visit(fn)
+        # x = bisect(..); .. max(0, x - 1) with x used only there: substitute
+        for name, b in list(binds.items()):
+            if len(b) == 1 and nonneg(name):
+                loads = [n for n in ast.walk(fn) if isinstance(n, ast.Name) and n.id == name and isinstance(n.ctx, ast.Load)]
+                if len(loads) != 1:
+                    continue
+                for holder in ast.walk(fn):
+                    for fld in ("body", "orelse", "finalbody"):
+                        body = getattr(holder, fld, None)
+                        if isinstance(body, list) and b[0] in body:
+                            i = body.index(b[0])
+                            if i + 1 < len(body) and any(x is loads[0] for x in ast.walk(body[i + 1])):
+                                # the use is in the next statement, inside max(0, x - 1)
+                                for par in ast.walk(body[i + 1]):
+                                    if isinstance(par, ast.Call) and isinstance(par.func, ast.Name) and par.func.id == "max" and len(par.args) == 2 and isinstance(par.args[1], ast.BinOp) and par.args[1].left is loads[0]:
+                                        par.args[1].left = b[0].value
+                                        del body[i]
+                                        break
+    ast.fix_missing_locations(tree)
